@@ -92,3 +92,30 @@ func verifC16Tagged(maxN, maxL, maxT int) {
 }
 
 func VerifHarness_C16_tagged_framing_2x2() { verifC16Tagged(2, 2, 2) }
+
+// a single long integer against a short tuple: the length of the long element equals the
+// length of the whole framed pre-image of the short tuple (8 + sum(len_i + 9) bytes), which
+// is where an element could masquerade as a frame. Both the plain and the tagged hash.
+func verifC16LongSingle(tagged bool) {
+	v.NoSummaries()
+	b, rb := verifTupleInts("b", 2, 1)
+	frame := 8
+	for _, r := range rb {
+		frame += len(r) + 9
+	}
+	xb := v.NondetBytes("x", frame)
+	v.Assume("minimal-encoding", xb[0] != 0)
+	x := new(big.Int).SetBytes(xb)
+	var hx, hb *big.Int
+	if tagged {
+		hx, hb = SHA512_256i_TAGGED([]byte("t"), x), SHA512_256i_TAGGED([]byte("t"), b...)
+	} else {
+		hx, hb = SHA512_256i(x), SHA512_256i(b...)
+	}
+	same := len(rb) == 1 && len(rb[0]) == frame && v.EqBytes(rb[0], xb)
+	v.Assert("long-element-is-not-a-frame", v.Implies(v.EqInt(hx, hb), same))
+	v.Reach("end")
+}
+
+func VerifHarness_C16_ints_long_single_vs_tuple()   { verifC16LongSingle(false) }
+func VerifHarness_C16_tagged_long_single_vs_tuple() { verifC16LongSingle(true) }
